@@ -501,13 +501,13 @@ class Check(core.PropertyCheck):
         base = {"Types": frozenset(TYPES), "ModifiedIgnoresBackupKey": MODIFIED_IGNORES_BACKUP_KEY}
         if tier == "quick":
             return base | {"NFields": 2, "NVals": 2, "MaxOps": 4, "MaxFlows": 2}
-        return base | {"NFields": 2, "NVals": 2, "MaxOps": 6, "MaxFlows": 3}
+        return base | {"NFields": 2, "NVals": 2, "MaxOps": 5, "MaxFlows": 3}
 
     def model_runs(self, ctx):
         runs = [ctx.model_check(self.MODEL, self.model_constants(ctx.tier) | {"Types": frozenset({"http"})}, dump=True,
                                 view="View")]
         if not ctx.quick:
-            runs.append(ctx.model_check(self.MODEL, self.model_constants("thorough") | {"NFields": 3, "NVals": 3, "MaxOps": 6},
+            runs.append(ctx.model_check(self.MODEL, self.model_constants("thorough") | {"NFields": 3, "NVals": 2, "MaxOps": 6},
                                         dump=False, tag="_big", view="View"))
         return runs
 
@@ -541,6 +541,8 @@ class Check(core.PropertyCheck):
         nf, nv = mc["NFields"], mc["NVals"]
         rng = random.Random(ctx.seed + 40)
         behs = g.edge_cover(rng, max_len=12, tail=3)
+        if not ctx.quick and len(behs) > 10000:  # thorough: a seeded sample of the edge cover when it is larger
+            behs = rng.sample(behs, 10000)
         behs += g.random_walks(rng, 600 if ctx.quick else 6000, mc["MaxOps"] + 4)
         k = 0
         for b in behs:
